@@ -120,6 +120,10 @@ def cases(tier):
     out.append(("key/dotted", {"type": "value", "key": "a.b", "op": "eq", "value": 5}, ("nested-int",), lambda V_: X == 5))
     out.append(("key/tag", {"type": "value", "key": "tag:Name", "op": "eq", "value": "ab"}, ("tags", 2),
                 lambda V_: z3.And(c0 == 97, c1 == 98)))
+    out.append(("key/tag-colon", {"type": "value", "key": "tag:aws:asg:Name", "op": "eq", "value": "ab"}, ("tags", 2),
+                lambda V_: z3.And(c0 == 97, c1 == 98)))
+    out.append(("key/tag-colon-ne", {"type": "value", "key": "tag:team:owner", "op": "ne", "value": "ab"}, ("tags", 2),
+                lambda V_: z3.Not(z3.And(c0 == 97, c1 == 98))))
     return out
 
 
@@ -263,7 +267,10 @@ def _op_harness(cid, clause, shape, expected):
             return ct.MapType({ct.StringType("a"): ct.MapType({ct.StringType("b"): v})})
         if shape[0] == "tags":
             tag = lambda k, val: ct.MapType({ct.StringType("Key"): ct.StringType(k), ct.StringType("Value"): val})
-            return ct.MapType({ct.StringType("Tags"): ct.ListType([tag("Other", ct.StringType("zz")), tag("Name", v), tag("Name", ct.StringType("second"))])})
+            name = clause["key"][4:]  # decoy tags named like fragments of the wanted name precede and follow it
+            return ct.MapType({ct.StringType("Tags"): ct.ListType([tag("Other", ct.StringType("zz")), tag(name.rpartition(":")[2] + "x", ct.StringType("ab")), tag(name, v),
+                                                                    tag(name, ct.StringType("second"))] + ([tag(name.rpartition(":")[2], ct.StringType("ab")), tag(name.partition(":")[0], ct.StringType("ab"))]
+                                                                                                          if ":" in name else []))})
         return ct.MapType({ct.StringType("k"): v})
 
     def run(vals):
